@@ -37,6 +37,10 @@ def queries(tier):
         for bl in (1, 3):
             for c in range(1, bl + 1):
                 qs.append(tq(tr, 4, {"BL": bl, "NCUT": c}, "rx-body-b%d-cut%d" % (bl, c), {"step": "receive: payload in two pieces", "body": bl, "first_read": c}))
+        for how, hn in ((0, "peer-dies"), (1, "receive-aborted")):
+            for c in (0, 2):
+                qs.append(tq(tr, 9, {"BL": 3, "NCUT": c, "HOW": how}, "rx-midbody-%s-after%d" % (hn, c),
+                             {"step": "receive: %s in the middle of a message, then the pipe is torn down" % hn, "body": 3, "received": c}))
         qs.append(tq(tr, 5, {}, "nego", {"step": "handshake: any 8 bytes, any split"}))
         for mode, mn in ((6, "tx"), (7, "rx")):
             for wc in (0, 1):
